@@ -83,7 +83,7 @@ func Start() *Engine {
 				logrus.Info("Update DB")
 				logrus.Infof("-> %#v", req.expr)
 				logrus.Infof("-> %s", req.expr)
-				value, err := req.expr.Eval(ctx, global)
+				value, err := evalUpdate(ctx, req.expr, global)
 				if err != nil {
 					req.failed <- err
 					continue
@@ -107,6 +107,17 @@ func Start() *Engine {
 	}()
 
 	return e
+}
+
+// evalUpdate evaluates an update expression on the engine goroutine. A panic
+// in the evaluator fails that update; it must not take the engine down.
+func evalUpdate(ctx context.Context, expr rel.Expr, scope rel.Scope) (value rel.Value, err error) {
+	defer func() {
+		if r := recover(); r != nil {
+			err = errors.WrapPrefix(r, "update panic", 0)
+		}
+	}()
+	return expr.Eval(ctx, scope)
 }
 
 // Stop stops the engine.
